@@ -103,16 +103,22 @@ def mkOpts (j : Json) : Opts :=
 
 /-! generator scripts: state = number of yields done; step k yields a constant or echoes what it was resumed with -/
 structure Script where
-  steps : List (Option Val × Val)        -- (some c, _) = constant c; (none, d) = echo, d when resumed with None
-  ret   : Option (Option Val × Val)      -- same coding; none = returns None
+  segs : List (List (Option Val × Val))  -- the generators in hand-over order; each a list of yields:
+                                         -- (some c, _) = constant c; (none, d) = echo, d when resumed with None
+  ret  : Option (Option Val × Val)       -- what the last one returns (same coding); none = returns None
 
-def scriptStep (sc : Script) (k : Nat) (inp : Option Val) : Step Nat Val :=
+/-- state = (which generator, how many of its yields are done); after its last yield a generator that is not the last
+hands over to the next one by yielding it -/
+def scriptStep (sc : Script) (st : Nat × Nat) (inp : Option Val) : RawStep (Nat × Nat) Val :=
   let eval (e : Option Val × Val) : Val := match e.1 with
     | some c => c
     | none => inp.getD e.2
-  match sc.steps[k]? with
-  | some e => .yield (eval e) (k + 1)
-  | none => .ret (sc.ret.map eval)
+  match sc.segs[st.1]? with
+  | none => .ret none
+  | some steps =>
+    match steps[st.2]? with
+    | some e => .yield (eval e) (st.1, st.2 + 1)
+    | none => if st.1 + 1 < sc.segs.length then .delegate (st.1 + 1, 0) else .ret (sc.ret.map eval)
 
 def mkExpr (j : Json) : Option Val × Val :=
   match obj? j "v" with
@@ -124,6 +130,8 @@ def evJson : Ev Val → Json
   | .returned none => Json.arr #["r", jsonOf (.obj "None")]
   | .returned (some v) => Json.arr #["r", jsonOf v]
   | .raised => Json.arr #["e", "ParseError"]
+  | .escaped => Json.arr #["e", "TypeError"]
+  | .diverged => Json.arr #["e", "diverged"]
 
 def handleGen (j : Json) : Json :=
   let g := fld j "gen"
@@ -137,7 +145,7 @@ def handleGen (j : Json) : Json :=
     else {}
   let retJ := fld g "ret"
   let sc : Script :=
-    { steps := (arr! (fld g "steps")).map mkExpr
+    { segs := ((arr! (fld g "steps")) :: (arr! (fld g "chain")).map arr!).map (·.map mkExpr)
       ret := if isAsync || isNull retJ then none
              else match obj? retJ "v" with
                | some v => if isNull v then none else some (mkExpr retJ)
@@ -145,10 +153,12 @@ def handleGen (j : Json) : Json :=
   let sends := (arr! (fld g "sends")).map fun s => if isNull s then none else some (valOf s)
   let legacy := bool! (fld j "legacy")
   let eager := bool! (fld j "eager")
-  let model := if legacy && isAsync then legacyAsyncTrace W0 gt (scriptStep sc) 0 sends
-               else if eager then wrapTrace W0 gt (scriptStep sc) 0 none sends
-               else lazyTrace W0 gt (scriptStep sc) pyIsNone 0 none sends
-  let spec := Spec.genTrace W0 gt (scriptStep sc) 0 none sends
+  -- `no_reset`: the hand-over loop without `sent = None` (sync_from_generator before fix C08-sync-delegate-sent)
+  let resume := hop (!bool! (fld j "no_reset")) (scriptStep sc) 64
+  let model := if legacy && isAsync then legacyAsyncTrace W0 gt resume (0, 0) sends
+               else if eager then wrapTrace W0 gt resume (0, 0) none sends
+               else lazyTrace W0 gt resume pyIsNone (0, 0) none sends
+  let spec := Spec.genTrace W0 gt (Spec.flat (scriptStep sc) 64) (0, 0) none sends
   Json.mkObj [("trace", Json.arr (model.map evJson).toArray), ("spec_trace", Json.arr (spec.map evJson).toArray)]
 
 def handle (j : Json) : Json :=
